@@ -357,6 +357,11 @@ empty @is_you(int a, int b) {
 ]
 
 TEMPLATES += [
+    # `a ?? b` whose left operand changes what the right operand reads (the right side is evaluated first and kept)
+    ('spec_left_changes_right', '''int g = 5; byte gb = 3; int[] GA = [7, 8];
+int setg(int v) { g = v; write('s'); return v; } byte setb(byte v) { gb = v; return v; } int poke(int v) { GA[0] = v; return v; }
+empty @is_you(int a, int b) { write(setg(a) ?? g); write(g); write(' '); g = b; write(setg(a) ?? g + 0); write(g); write(' '); write((setb(a is byte) ?? gb) is int); write(gb is int); write(' ');
+  write(poke(a) ?? GA[0]); write(GA[0]); write(' '); int l = b; l = setg(l + 1) ?? g; write(l); write(g); }''', [[a, b] for a in (5, 9, 0) for b in (5, 9, 1)]),
     # preempt blocks inside loops of (recursive) defeat functions, the defeat raised inside the function itself
     ('preempt_in_loop_of_defeat_fn', '''int x = 0;
 empty !scan(int n, int bad) { for (int i = 1; i <= n; i += 1) { preempt { write(i); x = i; } if (i == bad) { !is_defeat(); } } write('e'); }
